@@ -32,8 +32,34 @@ def _atom_degree(a, base):
                 d = degree(x, base)
                 if d != {0}:
                     return None
+        if a[0] == "ind" and _mentions(a[1:], base):
+            return None  # an indicator of a predicate on base atoms (a threshold, a sign test): not polynomial in them
         return 0
     return 0
+
+
+def _mentions(x, base, depth=0):
+    """does the nested key structure x contain an atom of the base (predicate keys carry the compared normal form)"""
+    if depth > 12:
+        return False
+    try:
+        if base(x):
+            return True
+    except Exception:
+        pass
+    if isinstance(x, (tuple, list, frozenset)):
+        return any(_mentions(y, base, depth + 1) for y in x)
+    if isinstance(x, str):  # predicate keys carry the compared expression in printed form
+        import re
+
+        for tok in set(re.findall(r"[A-Za-z_][A-Za-z_0-9]*", x)):
+            if tok != x:
+                try:
+                    if base(tok):
+                        return True
+                except Exception:
+                    pass
+    return False
 
 
 def _poly_degrees(p: Poly, base):
